@@ -2,10 +2,12 @@
 # Runs every seeded change under /verif/seeded against the quick check of the property it
 # breaks (and, with extra args "<dir> <prop>", against another property's check).
 # Output: one line per change: KILLED/MISSED <change> by <check> [signature]
-cd /verif
+# MUT_REPO / MUT_VERIF (see mutrun.sh) let it run on a scratch worktree and a snapshot of /verif.
+verif=${MUT_VERIF:-/verif}
+cd $verif
 out=${KM_OUT:-/verif/seeded/KILLMATRIX.txt}
 : > "$out.tmp"
-for d in /verif/seeded/*/; do
+for d in $verif/seeded/*/; do
   n=$(basename "$d")
   [ -f "$d/patch.diff" ] || continue
   prop=$(python3 -c "import json;print(json.load(open('$d/meta.json'))['property'])")
